@@ -36,6 +36,14 @@ CLAIMS = {
    "Decides the helper x nil-kind matrix by abstract interpretation of the SSA form: 79 in-scope helpers (exported functions and methods with an item-like parameter, found by signature; constructors and Equals excluded) x each parameter x {untyped nil, typed nil pointer of each of the 14 vocabulary struct types, nil list, list with one nil-kind member}: ~1200 abstract runs; an obligation fails when an executable instruction definitely faults (invoke on nil interface, value-receiver method or field access through nil pointer, failing assertion, method call on reflect.TypeOf(nil)). IsNil must evaluate to constant true, NotEmpty to false, ItemsEqual to 'both nil' on all nil-kinds. Exhaustive over the matrix; nil-likes stored in struct fields of otherwise valid values are covered only to one list level.",
    "Trusted: go/ssa, absint.go transfer functions, dependencies summarised as unknown results. Unknown conditions make both branches executable (faults behind data-dependent guards are reported as possible). Callbacks are not entered.",
    "abstract interpretation (nilness/dynamic-type propagation with executable edges) over the helper x nil-kind matrix", "3/C20"),
+ "C10": ("other",
+   "Decides the sibling-agreement clause: each of the 13 Recipients() methods makes exactly one call of ItemCollectionDeduplication whose variadic argument is, in order, &To, &CC, &Bto, &BCC of the receiver itself, then (IntransitiveActivity and Question only) a fresh list holding the receiver's Actor, then the address of a local copy of Audience, and returns its result; for Activity the Block removal reassigns all five addressing lists, takes its items from the activity's object, is selected by a comparison with BlockType and cannot run after the de-duplication. Necessary conditions of the property for every addressing; NOT decided: the in-place removal's index arithmetic for every duplicate pattern, IRI equivalence classes, aliasing of the audience copy.",
+   "Trusted: go/types method sets, go/ssa, prov.go.",
+   "sibling agreement of call-argument schemas extracted from SSA + CFG ordering of the Block removal", "3/C10"),
+ "C11": ("other",
+   "Decides the recipient-stripping walk, which is the shape of the code: every object type's pointer implements Clean; Object.Clean stores a zero-length list into both Bto and BCC; the nine (+3 for Activity) walked properties are handed to CleanRecipients on every path; by abstract interpretation, Clean() of every other type reaches (*Object).Clean on its own value on every executable path, and CleanRecipients on a non-nil pointer (alone or as list member) of each type reaches that type's Clean; the only vocabulary-struct fields written in the Clean closures are Bto/BCC. Near-complete for the property; NOT decided: values embedded by value, aliasing of list backing arrays.",
+   "Trusted: go/types, go/ssa, the abstract interpreter, prov.go.",
+   "must-call / walk-list extraction on SSA + abstract interpretation of delegation + write-frame scan", "3/C11"),
 }
 
 NOT_YET = "check not yet built in this round (planned, see DESIGN.md section 3); not claimed until it runs clean"
